@@ -51,6 +51,15 @@ def make_form(rng, i):
         f.settings["add_none_option"] = rng.choice(["yes", "true"])
         f.survey.append(Row("q", f"select_multiple {ln}", "sm_none_a", {"label": "A"}))
         f.survey.append(Row("q", f"select_multiple {ln}", "sm_none_b", {"label": "B"}))
+    if rng.random() < 0.15:
+        # names that coincide with pyxform's own field names, used as data: a custom instance attribute, a language
+        for r in [r for r, _ in f.walk() if r.kind == "q"][:2]:
+            r.cells[rng.choice(["instance::parent", "instance::bind", "instance::control", "bind::parent", "body::extra_data"])] = "v_" + r.name
+        vis = [r for r, _ in f.walk() if r.kind == "q" and "label" in r.cells]
+        if vis and not f.meta.get("langs"):
+            for r in vis[:3]:
+                r.cells["label::control"] = "ctl " + r.cells["label"]
+                r.cells["label::treatment"] = "trt " + r.cells["label"]
     if k == 0:
         f.entities = {"list_name": "ent", "label": "concat('e', '1')"}
         for r in [r for r in f.survey if r.kind == "q" and (r.type or "").split(" ")[0] in ("text", "integer")][:2]:
